@@ -65,10 +65,12 @@ package checkgroup
 //@   pure
 //@   ensures result != nil && fresh(result) && !gerr(result) && !gmem(result)
 
+//@ ghostfield gadds int
 //@ func Checkgroup.Add
 //@   trusted
 //@   requires check != nil
-//@   modifies gerr(recv), gmem(recv)
+//@   modifies gerr(recv), gmem(recv), gadds(recv)
+//@   ensures gadds(recv) == old(gadds(recv)) + 1
 //@   ensures gerr(recv) == (old(gerr(recv)) || closureof(check, ErrorFunc$1))
 //@   ensures gmem(recv) == (old(gmem(recv)) || !(closureof(check, ErrorFunc$1) || closureof(check, NotMemberFunc) || closureof(check, UnknownMemberFunc)))
 
